@@ -498,7 +498,10 @@ Section Main.
   (* the library: parameters, "tables are precomputed", feature matrix (one column per sample)
      -> None (an exception leaves run()) | embedding (one row per sample) and, for the linear
      methods, projection matrix and mean *)
-  Variable lib : list (string * value) -> bool -> list (list V)
+  (* The feature matrix is kept as its list of rows (one row per dimension); a matrix with NO rows still has
+     a number of columns in Eigen (a file whose lines hold no number at all is N samples of dimension 0), so
+     the number of samples is handed over separately. *)
+  Variable lib : list (string * value) -> bool -> nat -> list (list V)
                  -> option (list (list V) * option (list (list V) * list V)).
 
   Record files := { f_embedding : string; f_matrix : option string; f_mean : option string }.
@@ -552,7 +555,8 @@ Section Main.
         | Some (RWrong _) => Fail (catch_code T)            (* runtime_error -> main()'s handler *)
         | Some (RMat file) =>
           let features := if tin then transpose V file else file in
-          match lib ps pre features with
+          let nsamples := if tin then length file else width V file in
+          match lib ps pre nsamples features with
           | None => Fail (catch_code T)
           | Some (E, proj) =>
             let out := write_matrix V print dw (if tout then transpose V E else E) in
